@@ -137,3 +137,9 @@ Theorem C15_chk_redis_model : forall ch script,
   end = true.
 Proof. exact redis_listen_checker_model. Qed.
 Print Assumptions C15_chk_redis_model.
+
+(* the Redis listener stays subscribed across restarts of _listen() and reconnections *)
+Theorem C15_redis_stays_subscribed : forall own async items,
+  deliveries_ok false (rt_model own async items) = true.
+Proof. exact redis_stays_subscribed. Qed.
+Print Assumptions C15_redis_stays_subscribed.
